@@ -156,6 +156,16 @@ func (p parser) transform(n *yaml.Node) (Node, error) {
 		return nil, fmt.Errorf("unsupported node type: %d", n.Kind)
 	}
 
+	if n.Kind == yaml.MappingNode {
+		// The simplified node representation, and everything built on top of it, addresses map entries
+		// by string keys, so sequences and maps cannot be used as keys.
+		for i := 0; i < len(n.Content); i += 2 {
+			if n.Content[i].Kind != yaml.ScalarNode {
+				return nil, fmt.Errorf("unsupported map key on line %d: map keys must be scalars", n.Content[i].Line)
+			}
+		}
+	}
+
 	contents := make([]Node, len(n.Content))
 	for i, subNode := range n.Content {
 		subContent, err := p.transform(subNode)
